@@ -108,7 +108,12 @@ func c20Entity(t reflect.Type, key string) reflect.Value {
 	pv := reflect.New(st)
 	for i := 0; i < st.NumField(); i++ {
 		sf := st.Field(i)
-		if strings.Split(sf.Tag.Get("json"), ",")[0] != "v" {
+		if tag := strings.Split(sf.Tag.Get("json"), ",")[0]; tag != "v" {
+			// the parents of nested @requires paths (dims { vol }): the inline population assigns
+			// entity.Dims.Vol, so the resolver hands over an allocated parent (as user code must)
+			if (tag == "dims" || tag == "box") && sf.Type.Kind() == reflect.Ptr && sf.Type.Elem().Kind() == reflect.Struct {
+				pv.Elem().Field(i).Set(reflect.New(sf.Type.Elem()))
+			}
 			continue
 		}
 		switch {
@@ -267,7 +272,19 @@ func c20CoerceReq(field string, v any, present bool) (any, error) {
 	if !present {
 		v = nil
 	}
-	switch field {
+	kind := field
+	for _, rp := range c20ReqPaths {
+		if strings.Join(rp.P, ".") == field {
+			kind = rp.Kind
+		}
+	}
+	if kind == "I?" {
+		if v == nil {
+			return nil, nil
+		}
+		kind = "n"
+	}
+	switch kind {
 	case "w":
 		switch x := v.(type) {
 		case nil:
@@ -329,7 +346,63 @@ func c20EchoVal(v any) string {
 	return fmt.Sprint(v)
 }
 
-var c20ReqFields = []string{"w", "n", "l"}
+// The required paths of the probe types, flat and nested, with the way their values coerce
+// (w: nullable String, n: Int!, l: [String!], "I?": nullable Int). P / Pm (round 4) require
+// dimsVol, dims { vol }, dims { wt }, box { vol } - through several @requires directives.
+type c20ReqPath struct {
+	P    []string
+	Kind string
+}
+
+var c20ReqPaths = []c20ReqPath{{[]string{"w"}, "w"}, {[]string{"n"}, "n"}, {[]string{"l"}, "l"},
+	{[]string{"dimsVol"}, "n"}, {[]string{"dims", "vol"}, "I?"}, {[]string{"dims", "wt"}, "n"}, {[]string{"box", "vol"}, "I?"}}
+
+// c20Lookup finds the value a representation carries for a path (absent: a missing leaf or a
+// missing / non-object parent).
+func c20Lookup(m map[string]any, path []string) (any, bool) {
+	var cur any = m
+	for _, seg := range path {
+		mm, ok := cur.(map[string]any)
+		if !ok {
+			return nil, false
+		}
+		cur, ok = mm[seg]
+		if !ok {
+			return nil, false
+		}
+	}
+	return cur, true
+}
+
+// c20FieldByPath descends an entity struct along the json tags of a path; alloc: allocate nil
+// parents on the way. ok = false: the type has no such path; a nil parent (alloc = false) yields an
+// invalid Value with ok = true.
+func c20FieldByPath(st reflect.Value, path []string, alloc bool) (reflect.Value, bool) {
+	cur := st
+	for k, seg := range path {
+		fv, ok := c20FieldByTag(cur, seg)
+		if !ok {
+			return reflect.Value{}, false
+		}
+		if k == len(path)-1 {
+			return fv, true
+		}
+		if fv.Kind() == reflect.Ptr {
+			if fv.IsNil() {
+				if !alloc {
+					return reflect.Value{}, true
+				}
+				fv.Set(reflect.New(fv.Type().Elem()))
+			}
+			fv = fv.Elem()
+		}
+		if fv.Kind() != reflect.Struct {
+			return reflect.Value{}, false
+		}
+		cur = fv
+	}
+	return reflect.Value{}, false
+}
 
 func c20FieldByTag(st reflect.Value, tag string) (reflect.Value, bool) {
 	for i := 0; i < st.NumField(); i++ {
@@ -360,8 +433,9 @@ func c20Requires(ft reflect.Type) func([]reflect.Value) []reflect.Value {
 		var parts []string
 		var err error
 		if obj.Kind() == reflect.Struct {
-			for _, f := range c20ReqFields {
-				fv, ok := c20FieldByTag(obj, f)
+			for _, rp := range c20ReqPaths {
+				f := strings.Join(rp.P, ".")
+				fv, ok := c20FieldByPath(obj, rp.P, false)
 				if !ok {
 					continue
 				}
@@ -369,9 +443,8 @@ func c20Requires(ft reflect.Type) func([]reflect.Value) []reflect.Value {
 					var raw any
 					present := false
 					if !reqMap.IsNil() {
-						if mv := reqMap.MapIndex(reflect.ValueOf(f)); mv.IsValid() {
-							present = true
-							raw = mv.Interface()
+						if mm, ok := reqMap.Interface().(map[string]any); ok {
+							raw, present = c20Lookup(mm, rp.P)
 						}
 					}
 					cv, cerr := c20CoerceReq(f, raw, present)
@@ -385,6 +458,8 @@ func c20Requires(ft reflect.Type) func([]reflect.Value) []reflect.Value {
 					fv = fv.Elem()
 				}
 				switch {
+				case !fv.IsValid(): // a nil parent of a nested path
+					parts = append(parts, "null")
 				case fv.Kind() == reflect.Ptr:
 					parts = append(parts, "null")
 				case fv.Kind() == reflect.Slice && fv.IsNil():
@@ -430,12 +505,13 @@ func C20Populate(ctx context.Context, typ string, entity any, reps map[string]an
 		run.Log(Event{E: "Pop", P: typ + "(" + id + ")"})
 	}
 	st := ev.Elem()
-	for _, f := range c20ReqFields {
-		fv, ok := c20FieldByTag(st, f)
-		if !ok {
+	for _, rp := range c20ReqPaths {
+		f := strings.Join(rp.P, ".")
+		fv, ok := c20FieldByPath(st, rp.P, true)
+		if !ok || !fv.IsValid() {
 			continue
 		}
-		raw, present := reps[f]
+		raw, present := c20Lookup(reps, rp.P)
 		cv, err := c20CoerceReq(f, raw, present)
 		if err != nil {
 			return err
